@@ -626,11 +626,41 @@ def M_int_to_string(it, ctx, args, st):
     yield st, r
 
 
+def same_text(a, b):
+    """the same symbolic text (structurally identical terms), however the code moved it around"""
+    return a is b or (isinstance(a, BStr) and isinstance(b, BStr) and len(a.bytes) == len(b.bytes) and a.len.eq(b.len)
+                      and all(x.eq(y) for x, y in zip(a.bytes, b.bytes)))
+
+
+def ghost_int_text(it, st, v, bits, signed):
+    """an opaque text standing for the Display of the integer v (any width up to 128): only the ghost record relates it to v;
+    its bytes are otherwise unconstrained ASCII (callers that look at the bytes get an over-approximation)"""
+    K = 40
+    n = it.counter = getattr(it, 'counter', 0) + 1
+    r = BStr(tuple(z3.BitVec(f'itxt{n}_{i}', 8) for i in range(K)), z3.BitVec(f'itxt{n}_len', 64))
+    st.pc.append(z3.And(z3.UGE(r.len, 1), z3.ULE(r.len, K), *[z3.ULT(b, 128) for b in r.bytes]))
+    st.aux['int_texts'] = st.aux.get('int_texts', ()) + ((r, v, bits, signed),)
+    return r
+
+
 def M_str_parse(it, ctx, args, st):
     tgt = ctx.gargs[0]
     name = tgt[1]
     s = sval(st, args[0])
     if name in INT_BITS:
+        rec = next((r for r in st.aux.get('int_texts', ()) if same_text(r[0], s)), None)
+        if rec is not None:
+            # s is the Display text of the integer rec[1] (ghost record): std's parse is the inverse of Display, so parse::<T>(s) is
+            # Ok(that integer) exactly when it fits T
+            src, sbits, ssigned = rec[1], rec[2], rec[3]
+            tb, tsigned = INT_BITS[name], name[0] == 'i'
+            W = max(sbits, tb) + 1
+            wide = z3.SignExt(W - sbits, src) if ssigned else z3.ZeroExt(W - sbits, src)
+            lo, hi = (-(1 << (tb - 1)), (1 << (tb - 1)) - 1) if tsigned else (0, (1 << tb) - 1)
+            fits = z3.And(wide >= z3.BitVecVal(lo, W), wide <= z3.BitVecVal(hi, W))
+            for s2, good in fork_bool(it, st, fits):
+                yield s2, (it.ok(z3.Extract(tb - 1, 0, wide)) if good else it.err(Agg('std::num::ParseIntError', ())))
+            return
         ok, v = parse_int_model(s, INT_BITS[name], name[0] == 'i')
         for s2, good in fork_bool(it, st, ok):
             yield s2, (it.ok(v) if good else it.err(Agg('std::num::ParseIntError', ())))
